@@ -22,6 +22,8 @@ type importClosure struct {
 	collector *ssa.Function
 	canon     *ssa.Function
 	users     []*ssa.Function // other functions touching RL.map
+	claimer   *ssa.Function   // function holding the test-and-insert: the collector or a helper it calls
+	claimCall *ssa.Call       // the collector's call of the helper (nil when the collector claims itself)
 }
 
 func findImportClosure(c *Check) *importClosure {
@@ -82,8 +84,22 @@ func findImportClosure(c *Check) *importClosure {
 			ic.canon = f
 		}
 	}
+	// The claim (membership test + insertion into the shared file table) is made
+	// by the collector itself or by a helper it calls (a method of the table).
+	ic.claimer = ic.collector
+	if ic.collector != nil && !ic.hasUpdate(ic.collector) {
+		eachInstr(ic.collector, func(_ *ssa.BasicBlock, i ssa.Instruction) {
+			cl, ok := i.(*ssa.Call)
+			if !ok || ic.claimCall != nil {
+				return
+			}
+			if h := cl.Call.StaticCallee(); h != nil && isRepoFn(h) && h != ic.collector && ic.hasUpdate(h) {
+				ic.claimer, ic.claimCall = h, cl
+			}
+		})
+	}
 	for _, f := range p.RepoFuncs() {
-		if f == ic.collector || fnPkgPath(f) != pk.PkgPath {
+		if f == ic.collector || f == ic.claimer || fnPkgPath(f) != pk.PkgPath {
 			continue
 		}
 		if len(ic.mapAccesses(f)) > 0 {
@@ -91,6 +107,15 @@ func findImportClosure(c *Check) *importClosure {
 		}
 	}
 	return ic
+}
+
+func (ic *importClosure) hasUpdate(f *ssa.Function) bool {
+	for _, a := range ic.mapAccesses(f) {
+		if _, ok := a.(*ssa.MapUpdate); ok {
+			return true
+		}
+	}
+	return false
 }
 
 func (ic *importClosure) isMapLoad(v ssa.Value) bool {
@@ -181,6 +206,9 @@ func checkC05(c *Check) {
 	for _, f := range withClosures(col) {
 		colSet[f] = true
 	}
+	if ic.claimer != nil {
+		colSet[ic.claimer] = true
+	}
 	c.Counts["collector_blocking_resources"] = blockingResources(c, "RESOURCE-PAIR", "HELD-ACROSS-NESTING", colSet)
 
 	c05Settings(c)
@@ -195,9 +223,13 @@ func checkC05(c *Check) {
 			read = cl
 		}
 	})
+	claimer, claimCall := ic.claimer, ic.claimCall
+	if claimer != col {
+		c.Notes = append(c.Notes, "the claim is made by the helper "+fnName(claimer)+" called from the collector")
+	}
 	var claims []*ssa.MapUpdate
 	var lookups []*ssa.Lookup
-	for _, a := range ic.mapAccesses(col) {
+	for _, a := range ic.mapAccesses(claimer) {
 		switch x := a.(type) {
 		case *ssa.MapUpdate:
 			claims = append(claims, x)
@@ -211,7 +243,11 @@ func checkC05(c *Check) {
 		c.Flagf("CLAIM-BEFORE-READ", ck, p.pos(col.Pos()), "collector never records the file in the retrieved map")
 	}
 	for _, cm := range claims {
-		c.Cond(instrDominates(cm, read), "CLAIM-BEFORE-READ", ck+"|claim dominates ReadHashBranch", p.pos(cm.Pos()),
+		var claimSite ssa.Instruction = cm
+		if claimCall != nil {
+			claimSite = claimCall
+		}
+		c.Cond(instrDominates(claimSite, read), "CLAIM-BEFORE-READ", ck+"|claim dominates ReadHashBranch", p.pos(claimSite.Pos()),
 			"the insertion into the retrieved map dominates the read of the file",
 			"the file is read before (or without) being claimed in the retrieved map: two goroutines can both fetch it, and a cycle no longer terminates")
 		// lookup and claim in one critical section
@@ -225,7 +261,7 @@ func checkC05(c *Check) {
 			// or some path where unlock happens and claim is still reached
 			if !crosses {
 				// any Unlock reachable from lookup from which claim is reachable
-				eachInstr(col, func(_ *ssa.BasicBlock, i ssa.Instruction) {
+				eachInstr(claimer, func(_ *ssa.BasicBlock, i ssa.Instruction) {
 					if unl(i) && canReach(lk, i, nil) && canReach(i, cm, nil) {
 						crosses = true
 					}
@@ -244,7 +280,11 @@ func checkC05(c *Check) {
 	// 2. lock discipline in collector (+closures) and pairing
 	lockOn := func(i ssa.Instruction) bool { return ic.isMutexCall(i, "Lock") }
 	lockOff := func(i ssa.Instruction) bool { return ic.isMutexCall(i, "Unlock") }
-	for _, f := range withClosures(col) {
+	lockScope := withClosures(col)
+	if claimer != col {
+		lockScope = append(lockScope, withClosures(claimer)...)
+	}
+	for _, f := range lockScope {
 		hs := mustHold(f, lockOn, lockOff)
 		for _, a := range ic.mapAccesses(f) {
 			c.Cond(hs.At(a), "LOCKED-ACCESS", fmt.Sprintf("%s|%T", fnName(f), a), p.pos(a.Pos()),
@@ -317,7 +357,11 @@ func checkC05(c *Check) {
 		}
 	}
 	// 4. publication safety
-	c05Publication(c, ic, claims, lookups)
+	if claimCall != nil {
+		c05PublicationViaHelper(c, ic, claimer, claimCall)
+	} else {
+		c05Publication(c, ic, claims, lookups)
+	}
 	// 5. join
 	nGo := 0
 	for _, f := range p.RepoFuncs() {
@@ -730,6 +774,14 @@ func c05Canon(c *Check, ic *importClosure) {
 				continue
 			}
 			isCanon := false
+			if pr, ok := k.(*ssa.Parameter); ok && f == ic.claimer && ic.claimCall != nil {
+				// the key is handed to the claim helper by the collector
+				for ai, fp := range f.Params {
+					if fp == pr && ai < len(ic.claimCall.Call.Args) {
+						k = ic.claimCall.Call.Args[ai]
+					}
+				}
+			}
 			if call, ok := k.(*ssa.Call); ok && staticCallee(call) == ic.canon {
 				isCanon = true
 			}
@@ -1235,4 +1287,93 @@ func flattenResultKept(c *Check, rule string) {
 func isSanitiserCallAny(cl ssa.CallInstruction) bool {
 	o := calleeObj(cl)
 	return o != nil && o.Pkg() != nil && sanitiserFuncs[o.Pkg().Path()+"."+o.Name()]
+}
+
+// c05PublicationViaHelper: the entry is published by a test-and-set helper; the
+// collector receives the entry (new or already present) and a flag. Fields the
+// collector writes through the entry are written after publication; the
+// already-claimed branch must read none of them.
+func c05PublicationViaHelper(c *Check, ic *importClosure, claimer *ssa.Function, claimCall *ssa.Call) {
+	p := c.P
+	col := ic.collector
+	ts := asTestAndSet(claimer)
+	if ts == nil || claimCall.Referrers() == nil {
+		c.Undecidedf("PUBLICATION", fnName(col), p.pos(claimCall.Pos()), "the claim helper %s is not a recognisable test-and-set (look-up, insertion on the absent outcome, constant flag)", fnName(claimer))
+		return
+	}
+	var entry, flag ssa.Value
+	for _, r := range *claimCall.Referrers() {
+		if ex, ok := r.(*ssa.Extract); ok {
+			if ex.Index == ts.boolIndex {
+				flag = ex
+			} else if _, isPtr := ex.Type().Underlying().(*types.Pointer); isPtr {
+				entry = ex
+			}
+		}
+	}
+	if entry == nil || flag == nil {
+		c.Undecidedf("PUBLICATION", fnName(col), p.pos(claimCall.Pos()), "cannot find the entry and the flag returned by %s", fnName(claimer))
+		return
+	}
+	// blocks of the already-claimed branch
+	claimed := map[*ssa.BasicBlock]bool{}
+	for _, br := range branchesOn(flag) {
+		fs, as := br.TrueSucc, br.FalseSucc
+		if !ts.foundIs {
+			fs, as = br.FalseSucc, br.TrueSucc
+		}
+		for _, b := range col.Blocks {
+			if (b == fs || fs.Dominates(b)) && !(b == as || as.Dominates(b)) {
+				claimed[b] = true
+			}
+		}
+	}
+	var after [][]string
+	var afterPos []token.Pos
+	eachInstr(col, func(b *ssa.BasicBlock, i ssa.Instruction) {
+		s, ok := i.(*ssa.Store)
+		if !ok {
+			return
+		}
+		root, path := fieldPath(s.Addr)
+		if root != entry || len(path) == 0 {
+			return
+		}
+		after = append(after, path)
+		afterPos = append(afterPos, s.Pos())
+	})
+	nReads := 0
+	var walk func(v ssa.Value, path []string)
+	walk = func(v ssa.Value, path []string) {
+		if v.Referrers() == nil {
+			return
+		}
+		for _, r := range *v.Referrers() {
+			switch x := r.(type) {
+			case *ssa.FieldAddr:
+				st := x.X.Type().Underlying().(*types.Pointer).Elem().Underlying().(*types.Struct)
+				walk(x, append(append([]string{}, path...), st.Field(x.Field).Name()))
+			case *ssa.UnOp:
+				if x.Op == token.MUL && len(path) > 0 && claimed[x.Block()] {
+					nReads++
+					conflict := -1
+					for k, a := range after {
+						if hasPrefixPath(a, path) || hasPrefixPath(path, a) {
+							conflict = k
+						}
+					}
+					key := fmt.Sprintf("%s|claimed-branch read of .%s", fnName(col), strings.Join(path, "."))
+					if conflict >= 0 {
+						c.Flagf("PUBLICATION", key, p.pos(x.Pos()), "the already-claimed branch reads .%s, which the claiming goroutine writes after publication at %s without the mutex (data race; value depends on fetch timing)",
+							strings.Join(path, "."), p.pos(afterPos[conflict]))
+					} else {
+						c.Okf("PUBLICATION", key, p.pos(x.Pos()), "field is written only before the entry is published under the mutex")
+					}
+				}
+			}
+		}
+	}
+	walk(entry, nil)
+	c.Counts["post_publication_stores"] = len(after)
+	c.Counts["claimed_branch_reads"] = nReads
 }
